@@ -939,6 +939,7 @@ pub fn run(sc: &Scenario) -> (Vec<String>, Vec<String>) {
     let mut script = sc.decisions.clone().map(|d| d.into_iter());
     // "main" (set-up client) always runs first
     let mut first = sc.clients.contains_key("main");
+    let mut unavailable = false;
     loop {
         let opts = ex.options(sc.horizon, sc.idle_only, cancels);
         let non_cancel: Vec<&Decision> = opts.iter().filter(|d| !matches!(d, Decision::Cancel(_))).collect();
@@ -962,7 +963,10 @@ pub fn run(sc: &Scenario) -> (Vec<String>, Vec<String>) {
         };
         first = false;
         if !opts.contains(&d) {
-            ev(json!({"ev": "harness_error", "task": "env", "what": format!("decision {} not available", d.to_s())}));
+            // a decision dictated from outside (a TLC-generated behaviour) is not possible here: the real task is
+            // not runnable although the specification says it is.  That is an observation, not a harness error.
+            ev(json!({"ev": "unavailable", "task": "env", "what": d.to_s()}));
+            unavailable = true;
             break;
         }
         if let Decision::Cancel(_) = d {
@@ -975,7 +979,9 @@ pub fn run(sc: &Scenario) -> (Vec<String>, Vec<String>) {
     let unresolved: Vec<String> = ex.alive(Kind::Client);
     let mut alive = ex.alive(Kind::Actor);
     alive.extend(ex.alive(Kind::Timer));
-    ev(json!({"ev": "quiescent", "task": "env", "unresolved": unresolved, "alive": alive, "steps": steps, "capped": steps >= max_steps}));
+    if !unavailable {
+        ev(json!({"ev": "quiescent", "task": "env", "unresolved": unresolved, "alive": alive, "steps": steps, "capped": steps >= max_steps}));
+    }
     let log = take_log();
     // tear down quietly: nothing below is part of the trace
     TAB.with(|t| *t.borrow_mut() = Tables::default());
